@@ -60,7 +60,85 @@ def cases(tier):
     # must not depend on which other nodes were asked first in the same parse context
     for d in corpus.dialects():
         out.append({"k": "hints", "d": d})
+    # Part E: ONE sqlfluff.core.Parser object (public API) used for a sequence of parses; each result must
+    # equal the result of a fresh Parser. Inputs collide on purpose: same first token, same positions, same
+    # token count; and files that need exactly / one more than max_parse_depth levels.
+    for cfgk in ("default", "tight"):
+        for first in range(len(SHARED_INPUTS)):
+            out.append({"k": "shared", "cfg": cfgk, "first": first, "depth": 2 if tier == "quick" else 3})
     return out
+
+
+SHARED_INPUTS = [
+    "SELECT 1 + 2\n", "SELECT 1 ) 2\n", "SELECT 1 , 2\n", "SELECT a b c\n", "SELECT ( + 2\n", "SELECT 1 + (\n",
+    "SELECT a FROM t\n", "SELECT a FROM (\n", "SELECT ) FROM t\n", "INSERT a FROM t\n",
+    "SELECT 1\n", "SELECT (1)\n", "SELECT ((1))\n", "SELECT (((1)))\n", "SELECT ((((1))))\n", "SELECT ((1)\n",
+    "SELECT a FROM t WHERE a IN (SELECT a FROM u)\n", "SELECT a FROM t WHERE a IN (SELECT a FROM u;\n",
+]
+_SHARED = {}
+
+
+def _shared_cfg(cfgk):
+    """'tight': max_parse_depth = the smallest value at which 'SELECT ((1))' still parses, so the list holds
+    files that need exactly the limit, less than it, and more than it (rejected)."""
+    from sqlfluff.core import FluffConfig
+
+    if cfgk in _SHARED:
+        return _SHARED[cfgk]
+    if cfgk == "default":
+        cfg = FluffConfig(overrides={"dialect": "ansi"})
+    else:
+        cfg = None
+        for dpt in range(5, 200):
+            c = FluffConfig(overrides={"dialect": "ansi", "max_parse_depth": dpt})
+            if _shared_parse(c, None, "SELECT ((1))\n")[0] != "EXC":
+                cfg = c
+                break
+        assert cfg is not None, "no max_parse_depth below 200 parses SELECT ((1))"
+        assert _shared_parse(cfg, None, "SELECT (((1)))\n")[0] == "EXC", "tight limit does not reject the deeper file"
+    _SHARED[cfgk] = cfg
+    return cfg
+
+
+def _shared_parse(cfg, parser, text):
+    from sqlfluff.core import Lexer, Parser
+
+    toks, _ = Lexer(config=cfg).lex(text)
+    parser = parser or Parser(config=cfg)
+    try:
+        tree = parser.parse(tuple(toks))
+    except Exception as e:
+        return ("EXC", type(e).__name__, str(e)[:120])
+    return ("TREE", sq.tree_sig(tree) if tree is not None else None)
+
+
+def run_shared(case, res):
+    from sqlfluff.core import Parser
+
+    cfg = _shared_cfg(case["cfg"])
+    n = len(SHARED_INPUTS)
+    fresh = [_shared_parse(cfg, None, t) for t in SHARED_INPUTS]
+    if case["cfg"] == "tight":
+        res["stats"]["rejected_inputs"] = sum(1 for f in fresh if f[0] == "EXC")
+    seqs = [tuple(case["seq"])] if "seq" in case else [(case["first"],) + rest for L in range(2, case["depth"] + 1) for rest in itertools.product(range(n), repeat=L - 1)]
+    for seq in seqs:
+        res["n"] += 1
+        parser = Parser(config=cfg)
+        for pos, i in enumerate(seq):
+            got = _shared_parse(cfg, parser, SHARED_INPUTS[i])
+            if got != fresh[i]:
+                res["fails"].append(
+                    {
+                        "clause": "shared_parser_result_differs_from_fresh",
+                        "features": {"cfg": case["cfg"], "fresh": fresh[i][0], "shared": got[0]},
+                        "detail": {"history": [SHARED_INPUTS[j] for j in seq], "position": pos, "diff": first_diff(fresh[i], got)},
+                        "case": {"k": "shared", "cfg": case["cfg"], "seq": list(seq)},
+                    }
+                )
+                break
+        res["nontrivial"] += 1
+        res["cls"].add(digest((case["cfg"], seq)))
+    res.setdefault("sample", {"k": "shared", "cfg": case["cfg"], "seq": list(seqs[0])})
 
 
 def run_hints(case, res):
@@ -267,6 +345,9 @@ def run_case(case):
         return res
     if case["k"] == "hints":
         run_hints(case, res)
+        return res
+    if case["k"] == "shared":
+        run_shared(case, res)
         return res
     if case["k"] == "hist1":
         seq = case["seq"]
